@@ -13,9 +13,18 @@ pub struct Sw {
     pub at_us: u64,
     pub outcome: String, // ok | err | never | panic
     pub spawned: bool,   // the outcome happens in a spawned task; the main future then never finishes (err/panic) or finishes Ok right after (ok)
+    pub leftover_us: Option<u64>, // a detached task that panics at this time — later than the main future's Ok, so it must never run
 }
 
 async fn software(sw: Sw) -> turmoil::Result {
+    if let Some(t) = sw.leftover_us {
+        // left behind by software that finishes Ok earlier: a finished host is not polled any more, and a
+        // bounce starts from a clean runtime, so this never fires
+        std::mem::forget(tokio::task::spawn_local(async move {
+            tokio::time::sleep(Duration::from_micros(t)).await;
+            panic!("a task of a finished incarnation was polled");
+        }));
+    }
     let body = {
         let sw = sw.clone();
         async move {
@@ -102,13 +111,14 @@ pub fn execute(c: &C11Cfg, ctl: &[String]) {
         let obs: String = match t[0] {
             "sw" => {
                 // sw <client|host> at=<us> outcome=<..> spawned=<0|1>
-                let mut sw = Sw { client: t[1] == "client", at_us: 0, outcome: "ok".into(), spawned: false };
+                let mut sw = Sw { client: t[1] == "client", at_us: 0, outcome: "ok".into(), spawned: false, leftover_us: None };
                 for kv in &t[2..] {
                     if let Some((k, v)) = kv.split_once('=') {
                         match k {
                             "at" => sw.at_us = v.parse().unwrap(),
                             "outcome" => sw.outcome = v.to_string(),
                             "spawned" => sw.spawned = v == "1",
+                            "leftover" => sw.leftover_us = Some(v.parse().unwrap()),
                             _ => {}
                         }
                     }
@@ -225,6 +235,18 @@ pub fn generate(rng: &mut Rng, idx: usize) -> (C11Cfg, Vec<String>) {
         sws.swap(i, j);
     }
     ctl.extend(sws.iter().cloned());
+    if idx % 9 == 4 {
+        // a host that finishes Ok early and leaves a detached task behind, is bounced after it finished,
+        // and the simulation goes on: the new incarnation must not inherit the old one's tasks
+        let at = tick_us * rng.range(0, 2);
+        let left = at + tick_us * rng.range(2, 5) + 1000;
+        ctl.push(format!("sw host at={at} outcome=ok spawned=0 leftover={left}"));
+        let i = sws.len();
+        ctl.push(format!("stepn {}", at / tick_us + 2));
+        ctl.push(format!("bounce {i}"));
+        ctl.push(format!("stepn {}", limit_steps + 6));
+        return (c, ctl);
+    }
     if rng.chance(1, 4) {
         // crash one of the hosts before running; sometimes restart it (its software starts afresh)
         if let Some(i) = sws.iter().position(|s| s.starts_with("sw host")) {
